@@ -63,7 +63,7 @@ ParseMsg(raw) ==
                         nr |-> (raw[3] % 2) = 1, na |-> ((raw[3] \div 2) % 2) = 1,
                         version |-> raw[4], blen |-> blen, serial |-> x4(8),
                         fields |-> {<<flds[i][1][1], flds[i][2][1], flds[i][2][2]>> : i \in (1..Len(flds)) \ sigs},
-                        nsig |-> Cardinality(sigs),
+                        nsig |-> Cardinality(sigs), nflds |-> Len(flds),
                         hpadzero |-> \A i \in (hend + 1)..bstart : raw[i] = 0,
                         bodyT |-> ps.Ts, body |-> br.v, bused |-> br.p - bstart,
                         total |-> Len(raw), bstart |-> bstart]
@@ -86,6 +86,7 @@ WellFormed(raw) ==
     /\ (p.bodyT # <<>>) => p.nsig = 1
     /\ \A c \in Required(p.type) : \E f \in p.fields : f[1] = c
     /\ \A f, g \in p.fields : f[1] = g[1] => f = g
+    /\ p.nflds - p.nsig = Cardinality(p.fields)         \* ... not even twice with the same value
 
 (* what parsing must recover from m *)
 Project(m) == [type |-> m.type, nr |-> m.nr, na |-> m.na, serial |-> m.serial,
